@@ -106,7 +106,7 @@ class C12(Prop):
         "dsq_threaded_read_is_database", "open_rejects", "read_written_database", "chunk_ownership_exclusive", "pipe_lock_discipline",
         "codec_chunk_layout", "codec_unpack_smem", "codec_pack_unpack_smem", "dsq_chunks_unpack_in_place", "codec_pack_smem", "pipe_wait_conditions_guarded", "pipe_lane_local", "pipe_recycling_nchunk_local", "pipe_half_lane_local",
         "pipe_variant", "pipe_wait_is_stutter", "pipe_progress_enabled", "pipe_liveness_weak_fairness", "pipe_fair_execution_exists",
-        "pipe_cut_safety", "pipe_cut_never_eof", "pipe_cut_no_deadlock", "pipe_cut_abort_final", "dsq_loader_outcomes", "dsq_cut_data_files", "dsq_cut_files", "dsq_written_passes_nseq_check", "dsq_cut_index_never_eof", "dsq_cut_written_index")]
+        "pipe_cut_safety", "pipe_cut_never_eof", "pipe_cut_no_deadlock", "pipe_cut_abort_final", "dsq_loader_outcomes", "dsq_cut_data_files", "dsq_cut_files", "dsq_written_passes_nseq_check", "dsq_cut_index_never_eof", "dsq_cut_written_index", "dsq_cut_index_files")]
     claimed = True
     level_text = ("Theorems for every schedule of one reader and any number of workers (one atomic step per mutex-protected region, spurious wake-ups allowed): "
                   "conservation and exclusivity of blocks, FIFO on both queues (history variables), counters in range and pendingWorkers = number of sleepers, "
